@@ -69,7 +69,12 @@ pub fn annex_menu(i: usize) -> Option<Vec<u8>> {
     match i {
         0 => None,
         1 => Some(vec![0x50]),
-        _ => Some(vec![0x50, 0xaa, 0xbb]),
+        2 => Some(vec![0x50, 0xaa, 0xbb]),
+        _ => {
+            let mut v = vec![0x50];
+            v.extend(gen::blob(299, 4));
+            Some(v)
+        }
     }
 }
 
@@ -294,6 +299,8 @@ pub fn queries_for(idx: usize, full: bool) -> Vec<Query> {
                 }
             }
         }
+        q.push(Query::Taproot { idx, ty, annex: 3, leaf: 0, prev: PrevMode::All });
+        q.push(Query::Taproot { idx, ty, annex: 3, leaf: 5, prev: PrevMode::All });
         q.push(Query::Taproot { idx, ty, annex: 0, leaf: 0, prev: PrevMode::OneOther });
         q.push(Query::Taproot { idx, ty, annex: 0, leaf: 0, prev: PrevMode::AllShort });
         q.push(Query::Taproot { idx, ty, annex: 2, leaf: 1, prev: PrevMode::AllLong });
